@@ -699,3 +699,126 @@ Proof.
   destruct (scores_from_nth ms (firstn (n_min ms) order) 0%nat i m Hi) as [cnt ->].
   unfold score. rewrite Qred_correct, Hw. unfold Qdiv. ring.
 Qed.
+
+(** * configuration of the adjustment object (wave 3) *)
+
+Lemma forallb_eq_ext {A} (f g : A -> bool) l : (forall x, f x = g x) -> forallb f l = forallb g l.
+Proof. intros H. induction l as [|x l IH]; simpl; auto. rewrite H, IH. reflexivity. Qed.
+
+(** the default configuration asks for the normal equations of [1 X], as before *)
+Theorem fit_ok_default cfg Xf thf b0 b :
+  cf_fit_intercept cfg = true -> cf_positive cfg = false ->
+  fit_ok cfg Xf thf b0 b = normal_eq_ok Xf thf b0 b.
+Proof.
+  intros Hf Hp. unfold fit_ok, normal_eq_ok. cbv zeta. rewrite Hf.
+  change (seq 0 (S (length b))) with (0%nat :: seq 1 (length b)). simpl forallb.
+  f_equal. apply forallb_eq_ext. intros j. unfold slope_ok. rewrite Hp. reflexivity.
+Qed.
+
+(** [copy_X] and [n_jobs] do not take part: two configurations that pose the same problem admit
+    exactly the same coefficients (and the adjusted values are a function of X, theta and the
+    coefficients alone: [adjust_param] has no configuration argument) *)
+Theorem fit_ok_same_problem a b' Xf thf b0 b :
+  same_problem a b' = true -> fit_ok a Xf thf b0 b = fit_ok b' Xf thf b0 b.
+Proof.
+  unfold same_problem. intros H. apply andb_true_iff in H. destruct H as [H1 H2].
+  apply eqb_prop in H1. apply eqb_prop in H2.
+  unfold fit_ok. cbv zeta. rewrite H1. f_equal. apply forallb_eq_ext. intros j. unfold slope_ok. rewrite H2. reflexivity.
+Qed.
+
+Theorem fit_ok_sound cfg Xf thf b0 b : fit_ok cfg Xf thf b0 b = true ->
+  (cf_fit_intercept cfg = false -> b0 == 0)
+  /\ (cf_fit_intercept cfg = true -> Qabs (grad Xf thf b0 b 0) <= grad_lim Xf thf b0 b 0)
+  /\ forall j, (1 <= j <= length b)%nat ->
+       (cf_positive cfg = false -> Qabs (grad Xf thf b0 b j) <= grad_lim Xf thf b0 b j)
+       /\ (cf_positive cfg = true ->
+           0 <= nth (pred j) b 0
+           /\ - grad_lim Xf thf b0 b j <= grad Xf thf b0 b j
+           /\ (~ nth (pred j) b 0 == 0 -> Qabs (grad Xf thf b0 b j) <= grad_lim Xf thf b0 b j)).
+Proof.
+  unfold fit_ok. cbv zeta. fold (grad Xf thf b0 b 0) (grad_lim Xf thf b0 b 0).
+  intros H. apply andb_true_iff in H. destruct H as [H0 H1].
+  split; [|split].
+  - intros Hf. rewrite Hf in H0. apply Qeq_bool_eq, H0.
+  - intros Hf. rewrite Hf in H0. apply Qle_bool_imp_le, H0.
+  - intros j Hj. rewrite forallb_forall in H1.
+    assert (Hin : In j (seq 1 (length b))) by (apply in_seq; lia).
+    specialize (H1 j Hin). unfold slope_ok in H1. cbv zeta in H1.
+    fold (grad Xf thf b0 b j) (grad_lim Xf thf b0 b j) in H1. split; intros Hp; rewrite Hp in H1.
+    + apply Qle_bool_imp_le, H1.
+    + apply andb_true_iff in H1. destruct H1 as [Hb Hg]. apply Qle_bool_imp_le in Hb.
+      destruct (Qeq_bool (nth (pred j) b 0) 0) eqn:E.
+      * apply Qle_bool_imp_le in Hg. repeat split; auto.
+        intros Hn. exfalso. apply Hn. apply Qeq_bool_eq, E.
+      * apply Qle_bool_imp_le in Hg. repeat split; auto.
+        apply Qabs_Qle_condition in Hg. apply Hg.
+Qed.
+
+(** ** the X attribute *)
+Lemma all2_sound {A B} (f : A -> B -> bool) l : forall m, all2 f l m = true ->
+  length m = length l /\ forall i da db, (i < length l)%nat -> f (nth i l da) (nth i m db) = true.
+Proof.
+  induction l as [|x l IH]; intros [|y m] H; simpl in *; try discriminate.
+  - split; auto. intros; lia.
+  - apply andb_true_iff in H. destruct H as [H1 H2]. destruct (IH _ H2) as [L1 L2].
+    split; [lia|]. intros [|i] da db Hi; auto. apply L2; lia.
+Qed.
+
+Lemma all2_refl {A} (f : A -> A -> bool) l : (forall x, In x l -> f x x = true) -> all2 f l l = true.
+Proof.
+  induction l as [|x l IH]; simpl; intros H; auto.
+  rewrite (H x) by auto. apply IH; auto.
+Qed.
+
+Lemma close_fval_sound a b : close_fval a b = true ->
+  match a, b with
+  | Some x, Some y => Qabs (x - y) <= tol_formula * (1 + Qabs x)
+  | None, None => True
+  | _, _ => False
+  end.
+Proof. destruct a, b; simpl; intros H; try discriminate; auto. apply close_sound, H. Qed.
+
+(** what the clause says: the X attribute read back after [adjust()] has the shape of
+    [summaries - observed], is non-finite exactly where that is, and holds those numbers *)
+Theorem x_attr_sound X Xi : x_attr_ok X Xi = true ->
+  length Xi = length X /\
+  forall i, (i < length X)%nat ->
+    length (nth i Xi []) = length (nth i X []) /\
+    forall j, (j < length (nth i X []))%nat ->
+      match nth j (nth i X []) None, nth j (nth i Xi []) None with
+      | Some x, Some y => Qabs (x - y) <= tol_formula * (1 + Qabs x)
+      | None, None => True
+      | _, _ => False
+      end.
+Proof.
+  unfold x_attr_ok. intros H. destruct (all2_sound _ _ _ H) as [L R]. split; auto.
+  intros i Hi. specialize (R i [] [] Hi). destruct (all2_sound _ _ _ R) as [L2 R2]. split; auto.
+  intros j Hj. apply close_fval_sound, R2, Hj.
+Qed.
+
+(** the model's own X attribute passes the clause *)
+Theorem x_attr_model X : x_attr_ok X X = true.
+Proof.
+  unfold x_attr_ok. apply all2_refl. intros row _. apply all2_refl. intros [x|] _; simpl; auto.
+  apply close_refl; [discriminate|].
+  pose proof (Qabs_nonneg x). replace 0 with (0 + 0) by reflexivity. apply Qplus_le_compat; auto. discriminate.
+Qed.
+
+(** the object as a state: any number of [adjust()] calls leave it as [fit] made it (in particular
+    [X] = [summaries - observed]) and every call returns the same arrays, those of [adjust_all] *)
+Theorem adjust_calls_spec n : forall st thetas,
+  fst (adjust_calls n st thetas) = st
+  /\ snd (adjust_calls n st thetas) = repeat (adjust_all (st_X st) thetas (st_coefs st)) n.
+Proof.
+  induction n as [|n IH]; intros st thetas; simpl; auto.
+  destruct (adjust_calls n st thetas) as [st2 os] eqn:E.
+  specialize (IH st thetas). rewrite E in IH. simpl in *. destruct IH as [-> ->]. auto.
+Qed.
+
+Theorem fit_adjust_state summ obs thetas bs n :
+  let st := fit_state summ obs thetas bs in
+  st_X (fst (adjust_calls n st thetas)) = input_variables summ obs
+  /\ snd (adjust_calls n st thetas) = repeat (adjust_all (input_variables summ obs) thetas bs) n.
+Proof.
+  intros st. destruct (adjust_calls_spec n st thetas) as [H1 H2]. rewrite H1, H2. split; reflexivity.
+Qed.
